@@ -40,7 +40,12 @@ fn block_json(b: &dp::ExtDiagBlock) -> Value {
                 dp::ChannelError::Reserved(r) => r,
                 dp::ChannelError::Vendor(v) => v,
             };
-            json!({"k":"channel","len":3,"module":c.module,"channel":c.channel,"input":c.input,"output":c.output,"dtype":dtype,"error":error})
+            let errk = match c.error {
+                dp::ChannelError::Reserved(_) => "reserved",
+                dp::ChannelError::Vendor(_) => "vendor",
+                _ => "named",
+            };
+            json!({"k":"channel","len":3,"module":c.module,"channel":c.channel,"input":c.input,"output":c.output,"dtype":dtype,"error":error,"errk":errk})
         }
         dp::ExtDiagBlock::Device(d) => json!({"k":"device","len": d.len() + 1,"data": d}),
     }
@@ -220,6 +225,18 @@ pub fn run(args: &Args) {
                 p.push(a);
                 p.push(b);
                 case(&mut log, 2, &p, None);
+            }
+        }
+    }
+    // ---- all channel-related blocks' third byte (data type x error type), a few module/channel bytes
+    for h in [0x80u8, 0xBF, 0x85] {
+        for b2 in [0x00u8, 0x7F, 0xC1] {
+            for b3 in 0..=255u8 {
+                if mine() {
+                    let mut p = hdr(0, 0);
+                    p.extend_from_slice(&[h, b2, b3]);
+                    case(&mut log, 16, &p, None);
+                }
             }
         }
     }
